@@ -38,6 +38,7 @@ def main():
         ap.error("property id required")
     if a.selftest:
         return selftest(a.prop)
+    os.environ["FVC_TIER"] = a.tier  # read by the numpy model (worker processes inherit it)
     rc = runner.check_property(a.prop, tier=a.tier, seed=seed, only_unit=a.unit)
     if rc == 0 and a.tier == "thorough" and a.unit is None and not os.environ.get("FVC_REPO"):
         rc2 = selftest(a.prop)
